@@ -94,7 +94,7 @@ func genViaLines(r *core.Rand) (lines []string, kinds []string) {
 	}
 	lines = append(lines, strings.Join(cur, core.Pick(r, []string{", ", ", ", ",", " , "})))
 	if r.Chance(4) {
-		lines = append([]string{""}, lines...) // an empty first Via line hides the rest from Header.Get
+		lines = append([]string{""}, lines...) // an empty first Via line (it used to hide the rest from Header.Get; now it is an empty list element)
 	}
 	return lines, kinds
 }
